@@ -110,7 +110,7 @@ theorem mv_ty_cases (V : MView c0 c1 sp ep m) {x : Name} {t : String} (h : m.ty?
     exact Or.inr (Or.inr (Or.inr (Or.inr ⟨e, he, rfl, ht.symm⟩)))
 
 theorem satTy_ne_input (ep : List Name) : satTy ep ≠ "input" := by
-  rcases satTy_cases ep with h | h <;> rw [h] <;> decide
+  rcases satTy_cases ep with h | h | h <;> rw [h] <;> decide
 
 /-! ### the tied startpoints are not copies, comparators or `sat` -/
 
@@ -183,12 +183,11 @@ theorem dif_fanin_c1 (e : Name) : pref "c1" e ∈ (difArgs e).fanin := by
     only a `buf` -/
 theorem miter_ep_types {c0 c1 m : Circuit} {sp ep : List Name} {ord : Ord}
     (h0 : LintClean c0) (h1 : LintClean c1) (hb0 : c0.bbs = []) (hb1 : c1.bbs = []) (hne : c1.nodes ≠ [])
-    (hsp : sp ≠ []) (hep : ep ≠ [])
     (h : Tx.miter c0 (some c1) (some sp) (some ep) ord = .ok m) :
     ∀ e ∈ ep, (∀ a, (e, a) ∈ c0.nodes → a.ty ≠ some "bb_input" ∧ a.ty ≠ some "bb_output") ∧
       (∀ a, (e, a) ∈ c1.nodes → a.ty ≠ some "bb_input" ∧ a.ty ≠ some "bb_output") := by
   obtain ⟨m1, m2, m3, m4, s1, s2, s3, s4, s5⟩ :=
-    miter_steps hb0 hb1 hne (typed_isNone h0) (typed_isNone h1) hsp hep h
+    miter_steps hb0 hb1 hne (typed_isNone h0) (typed_isNone h1) h
   obtain ⟨n1, _, _, w1⟩ := sub_exact (wf_m0 c0 c1) h0.toWF s1
   obtain ⟨n2, _, _, w2⟩ := sub_exact w1 h1.toWF s2
   obtain ⟨n3, _, _, w3⟩ := foldAdd_ok tieArgs plain_tie _ m2 m3 w2 s3
